@@ -415,6 +415,7 @@ theorem lost_inv {x : Option Nat} {w : World} (h : WInvX x w) (p : Nat) (ppr : P
   · intro hs'; cases hs'
   · intro _ _ _ _ _ _; exact Or.inl rfl
   · intro cr' c' hcq'; exact h.connReqLive p ppr cr' c' hpp hcq'
+  · intro cr' hcq'; exact h.connReqRef p ppr cr' hpp hcq'
   · exact h.bufOk p ppr hpp
 
 def addTimerW (w : World) (due : Nat) (k : TKind) : World :=
@@ -463,6 +464,7 @@ theorem addOnDisc_inv {x : Option Nat} {w : World} (h : WInvX x w) (p : Nat) (pp
     rw [hown, hpp] at a5; injection a5 with a5; subst a5
     exact a6
   · intro cr' c' hcq'; exact h.connReqLive p ppr cr' c' hpp hcq'
+  · intro cr' hcq'; exact h.connReqRef p ppr cr' hpp hcq'
   · exact h.bufOk p ppr hpp
 
 /-- MQTTBaseProtocol.connectionLost, delivered once to a live protocol -/
